@@ -72,7 +72,8 @@ P = {
    text=("Proved: Mp4TrackWriter::new stores track id, timescale, language and the media kind selected by the configuration and rejects exactly the configurations outside track_config_ok; the sample-entry constructors copy width/height, parameter sets, "
          "object type / frequency index / channel configuration codes; ftyp, mdhd (incl. the ISO-639 packing, proved inverse on all 15-bit codes), tkhd encode/decode byte-exactly; Mp4Reader brand/timescale accessors return the decoded fields; durations are converted as specified. "
          "The reader side of the configuration is proved from the file bytes: stsd selects the sample entry, avc1 width/height and the avcC record (profile bytes, every SPS/PPS verbatim) are the decoding of the child found on the sibling chain; the AudioSpecificConfig encoder/decoder pair is byte-exact with a proved round-trip lemma on the encodable domain. "
-         "Level 'other': the avcC encoder is under a size contract only, the esds descriptor nesting is not under functional contract, and the end-to-end composition is not one lemma."),
+         "the avcC encoder is byte-exact against a reference encoder whose output is proved (lemma_avcc_roundtrip) to decode to the same record. "
+         "Level 'other': the esds descriptor nesting, hvcC/vpcC/tx3g contents are not under functional contract, and the end-to-end composition is not one lemma."),
    note=TRUST),
  'C15': dict(claim=True, cat='proof', technique='Verus frame conditions + postconditions that are functions of (tables, stream data, arguments)',
    text="Reader calls leave tracks/moov/ftyp/size and the stream content unchanged (&mut self frame proved) and their results are specified purely in terms of the tables, the stream data and the arguments (never the stream position), with uniqueness lemmas, so any call history returns what a fresh reader returns. Muxer: every step's result is a function of the previous abstract state and the arguments (C01).",
